@@ -45,7 +45,9 @@ Bases ==
                           <<"$", "..", "[", "?", "@", ".", "a", " in ", "@", ".", "b", "]">>, <<"$", "..", "[", "?", "@", ".", "b", " contains ", "@", ".", "a", "]">>,
                           <<"$", "[", "?", "match(", "@", ".", "a", ",", "'a'", ")", "]">>,
                           <<"$", "[", "?", "(", "@", ".", "a", "==", "1", ")", "==", "true", "]">>, <<"$", "[", "?", "@", ".", "a", "<", "(", "1.5e1", "<", "1.0e16", ")", "]">>,
-                          <<"$", "[", "?", "!", "(", "@", ".", "a", "||", "@", ".", "b", ")", "&&", "@", ".", "a", "!=", "1.0e16", "]">> }
+                          <<"$", "[", "?", "!", "(", "@", ".", "a", "||", "@", ".", "b", ")", "&&", "@", ".", "a", "!=", "1.0e16", "]">>,
+                          <<"$", "[", "?", "count(", "length(", "@", ".", "a", ")", ")", "==", "1", "]">>, <<"$", "..", "[", "-1", "]">>,
+                          <<"$", "[", "?", "value(", "count(", "@", ".", "*", ")", ")", "==", "1", "]">> }
     [] Lang = "pointer" -> { <<"/", "a", "/", "0">>, <<"/", "~0", "/", "~1">>, <<>>, <<"/", "-">>, <<"/", "EACUTE", "/", "\\u0041">> }
     [] Lang = "relptr" -> { <<"0">>, <<"1", "/", "a">>, <<"0", "+", "1">>, <<"2", "#">>, <<"0", "-", "10", "/", "a">> }
     [] OTHER -> {}
